@@ -425,6 +425,7 @@ static void c09_run(int start, char *toks, int which)
          int n = atoi(tok + 1), m = 0, bad = 0, bad2 = 0, first = next; int rets[256]; opus_uint32 ea[256], da[256]; long p0 = pos;
          double acc_e = 0, acc_s = 0; long acc_n = 0;
          if (n > 256) n = 256;
+         next = (int)(pos / s9.oframe); first = next;      /* the packets that follow what has been played so far */
          while (m < n && next < s9.npk) {
             r = opus_decode_float(d, s9.pkt[next], s9.len[next], out, cap, 0);
             opus_decoder_ctl(d, OPUS_GET_FINAL_RANGE(&dr));
